@@ -1,12 +1,14 @@
 #!/venv/bin/python
 """Developer tool (never run by a check): after a human triage of a --dump file, append its
-not-yet-known discrepancies to known_findings.jsonl.  usage: accept_findings.py DUMP [substring-filter]"""
+not-yet-known discrepancies to known_findings.jsonl.  usage: accept_findings.py DUMP [substring-filter] [--replace=CNN]"""
 import json
 import sys
 
 FILE = '/verif/known_findings.jsonl'
-dump = sys.argv[1]
-flt = sys.argv[2] if len(sys.argv) > 2 else ''
+args = [a for a in sys.argv[1:] if not a.startswith('--replace=')]
+replace = [a.split('=', 1)[1] for a in sys.argv[1:] if a.startswith('--replace=')]   # drop the old entries of these properties first
+dump = args[0]
+flt = args[1] if len(args) > 1 else ''
 head, recs = [], {}
 for line in open(FILE, encoding='utf-8'):
     line = line.rstrip('\n')
@@ -16,6 +18,8 @@ for line in open(FILE, encoding='utf-8'):
         head.append(line)
     else:
         r = json.loads(line)
+        if r['property'] in replace:
+            continue
         recs[(r['property'], r['key'])] = r
 n = 0
 for line in open(dump, encoding='utf-8'):
